@@ -58,7 +58,7 @@ pub fn judge(h: &History, recs: &[StepRec]) -> Result<(bool, u64), Failure> {
             }
             steps_iter += 1;
         }
-        if matches!(r.step, Step::Join(_) | Step::JoinAbp) {
+        if matches!(r.step, Step::Join(_) | Step::JoinAbp | Step::SetSession { .. }) {
             // a new session starts (if the join succeeds): counters restart; data rate is whatever the snapshot says
             states = [(0u32, r.snap_after.data_rate)].into_iter().collect();
             owed_ack = false;
